@@ -508,7 +508,8 @@ class Executor:
             return None
         side = r.trace.side_steps()
         for k, sn in enumerate(r.result):
-            cand = [x for x in side if x.dig_out == sn[0] and float(x.t_out).hex() == float(sn[1]).hex()]
+            from .oracles import near
+            cand = [x for x in side if x.dig_out == sn[0] and near(x.t_out, sn[1], r.f_before[1])]
             if not cand:
                 continue
             x = cand[0]
